@@ -454,3 +454,22 @@ func (r *Run) Step() int {
 	}
 	return int(r.sched.stepA.Load())
 }
+
+// YieldW is a scheduling point placed before writes to shared state (struct
+// fields, package variables). It parks only in spawned worker goroutines, so
+// the sequential phases of the main task stay cheap.
+func YieldW(site string) {
+	r := cur.Load()
+	if r == nil {
+		return
+	}
+	s := r.sched
+	if s == nil || s.fast.Load() {
+		return
+	}
+	t := s.lookup()
+	if t == nil || t.class != 1 {
+		return
+	}
+	s.park(t, site)
+}
